@@ -182,6 +182,16 @@ def analyse_paths(prog, fnkey, mods, sess=(), flag_fn=None):
                         infeasible = True
                         break
                     continue
+                if t["discr_ty"] != "bool":
+                    # a decision kept as a literal variant on this path (`let erase = match (..) { .. => Erase::Word, .. }; match erase { .. }`):
+                    # the second match takes the arm of the variant this path assigned
+                    from engine.analyses import known_switch_value as _ksv
+                    kvd = _ksv(d)
+                    if kvd is not None:
+                        if not ((kvd in vals) if vals != "otherwise" else (kvd not in allv)):
+                            infeasible = True
+                            break
+                        continue
                 et = _empty_test(d)
                 fl = _flag_test(d, flag_fn)
                 ln = _len_switch(d)
